@@ -90,13 +90,6 @@ Section MapLaws.
   Context {A : Type}.
   Implicit Types m : list (str * A).
 
-  (* strictly increasing keys *)
-  Fixpoint skeys m : Prop :=
-    match m with
-    | [] => True
-    | (k, _) :: r => (forall k', In k' (map fst r) -> str_cmp k k' = Lt) /\ skeys r
-    end.
-
   Lemma map_get_insert m k v k' :
     map_get (map_insert m k v) k' = if str_eqb k' k then Some v else map_get m k'.
   Proof.
@@ -147,7 +140,7 @@ Section MapLaws.
     - right. apply IH, H.
   Qed.
 
-  Lemma skeys_head_notin k v r : skeys ((k, v) :: r) -> ~ In k (map fst r).
+  Lemma skeys_head_notin k (v : A) (r : list (str * A)) : skeys ((k, v) :: r) -> ~ In k (map fst r).
   Proof.
     cbn [skeys]. intros [H _] Hin. apply H in Hin. rewrite str_cmp_refl in Hin. discriminate.
   Qed.
@@ -207,6 +200,11 @@ Section MapLaws.
   Proof.
     split; [apply map_get_in|]. intros H. destruct (map_get m k) eqn:E; [|congruence].
     eapply map_get_some_in, E.
+  Qed.
+  Lemma map_remove_absent m k : map_get m k = None -> map_remove m k = m.
+  Proof.
+    induction m as [|[k0 v0] r IH]; cbn [map_get map_remove]; [reflexivity|].
+    destruct (str_eqb k k0); [discriminate|]. intros H. rewrite IH by exact H. reflexivity.
   Qed.
 End MapLaws.
 
@@ -290,14 +288,6 @@ Lemma areg_eq a e s d p :
   a = {| a_ents := e; a_strict := s; a_dev := d; a_pi := p |}.
 Proof. destruct a; cbn; intros; subst; reflexivity. Qed.
 
-(* what every reachable registry satisfies *)
-Record reg_inv (r : registry) : Prop := {
-  inv_tpls : skeys (r_templates r);
-  inv_srcs : skeys (r_sources r);
-  inv_sub : forall n, map_get (r_templates r) n = None -> map_get (r_sources r) n = None;
-  inv_dev : r_dev r = false -> r_sources r = []
-}.
-
 Lemma reg_inv_new : reg_inv reg_new.
 Proof. split; cbn; auto. Qed.
 
@@ -311,34 +301,34 @@ Lemma abs_same r r' :
   r_dev r' = r_dev r -> r_prevent_indent r' = r_prevent_indent r -> abs r' = abs r.
 Proof. intros Ht Hs H1 H2 H3. unfold abs. rewrite Ht, Hs, H1, H2, H3. reflexivity. Qed.
 
-Lemma a_file_of_abs r n : reg_inv r -> a_file_of (abs r) n = map_get (r_sources r) n.
-Proof.
-  intros Hi. unfold a_file_of. rewrite abs_ents, vmap_get.
-  destruct (map_get (r_templates r) n) eqn:E; cbn [option_map ent_of en_file]; [reflexivity|].
-  symmetry. apply (inv_sub r Hi), E.
-Qed.
-
 (* ---- register_template ---- *)
 Lemma abs_register_template r n t :
-  reg_inv r -> abs (register_template r n t) = a_put AsImplemented (abs r) n t.
+  reg_inv r -> abs (register_template r n t) = a_put (abs r) n t.
 Proof.
   intros Hi. unfold a_put, a_with. apply areg_eq; try reflexivity.
-  rewrite abs_ents. cbn [register_template reg_with r_templates r_sources].
-  rewrite vmap_insert, a_file_of_abs by exact Hi. reflexivity.
+  rewrite !abs_ents. cbn [register_template reg_with r_templates r_sources].
+  rewrite vmap_insert.
+  replace (ent_of (map_remove (r_sources r) n) n t) with {| en_tpl := t; en_file := None |}
+    by (unfold ent_of; rewrite map_get_remove_eq by apply (inv_srcs r Hi); reflexivity).
+  apply insert_vmap_ext; [apply (inv_tpls r Hi)|].
+  intros k v Hk. unfold ent_of. rewrite map_get_remove_neq by exact Hk. reflexivity.
 Qed.
 
 Lemma inv_register_template r n t : reg_inv r -> reg_inv (register_template r n t).
 Proof.
-  intros [H1 H2 H3 H4]. split; cbn [register_template reg_with r_templates r_sources r_dev]; auto.
+  intros [H1 H2 H3 H4]. split; cbn [register_template reg_with r_templates r_sources r_dev].
   - apply skeys_insert, H1.
-  - intros k Hk. rewrite map_get_insert in Hk. destruct (str_eqb k n); [discriminate|]. apply H3, Hk.
+  - apply skeys_remove, H2.
+  - intros k Hk. rewrite map_get_insert in Hk. destruct (str_eqb k n) eqn:E; [discriminate|].
+    apply str_eqb_neq in E. rewrite map_get_remove_neq by exact E. apply H3, Hk.
+  - intros Hd. rewrite (H4 Hd). reflexivity.
 Qed.
 
 (* ---- register_template_string ---- *)
 Lemma abs_register_template_string r n s :
   reg_inv r ->
-  abs (fst (register_template_string r n s)) = fst (a_register_template_string AsImplemented (abs r) n s)
-  /\ snd (register_template_string r n s) = snd (a_register_template_string AsImplemented (abs r) n s)
+  abs (fst (register_template_string r n s)) = fst (a_register_template_string (abs r) n s)
+  /\ snd (register_template_string r n s) = snd (a_register_template_string (abs r) n s)
   /\ reg_inv (fst (register_template_string r n s)).
 Proof.
   intros Hi. unfold register_template_string, a_register_template_string.
@@ -362,24 +352,25 @@ Proof.
   destruct (r_dev r) eqn:Hd.
   - (* dev mode: the file is tracked from now on *)
     split; [|split; [reflexivity|]].
-    + unfold a_with. apply areg_eq; try reflexivity. rewrite abs_ents.
+    + unfold a_with. apply areg_eq; try reflexivity. rewrite !abs_ents.
       cbn [register_template reg_with r_templates r_sources].
       rewrite vmap_insert.
-      replace (ent_of (map_insert (r_sources r) n p) n t) with {| en_tpl := t; en_file := Some p |}
+      replace (ent_of (map_insert (map_remove (r_sources r) n) n p) n t)
+        with {| en_tpl := t; en_file := Some p |}
         by (unfold ent_of; rewrite map_get_insert_eq; reflexivity).
-      rewrite abs_ents.
       apply insert_vmap_ext; [apply (inv_tpls r Hi)|].
-      intros k v Hk. unfold ent_of. rewrite map_get_insert_neq by exact Hk. reflexivity.
+      intros k v Hk. unfold ent_of. rewrite map_get_insert_neq by exact Hk.
+      rewrite map_get_remove_neq by exact Hk. reflexivity.
     + destruct Hi as [H1 H2 H3 H4].
       split; cbn [register_template reg_with r_templates r_sources r_dev].
       * apply skeys_insert, H1.
-      * apply skeys_insert, H2.
-      * intros k Hk. rewrite map_get_insert in Hk. rewrite map_get_insert. destruct (str_eqb k n); [discriminate|].
-        apply H3, Hk.
+      * apply skeys_insert, skeys_remove, H2.
+      * intros k Hk. rewrite map_get_insert in Hk. rewrite map_get_insert.
+        destruct (str_eqb k n) eqn:E; [discriminate|]. apply str_eqb_neq in E.
+        rewrite map_get_remove_neq by exact E. apply H3, Hk.
       * rewrite Hd. discriminate.
   - split; [|split; [reflexivity|apply inv_register_template, Hi]].
-    rewrite abs_register_template by exact Hi. unfold a_put, a_with. do 3 f_equal.
-    rewrite a_file_of_abs by exact Hi. rewrite (inv_dev r Hi Hd). reflexivity.
+    rewrite abs_register_template by exact Hi. reflexivity.
 Qed.
 
 (* ---- unregister_template / clear_templates ---- *)
@@ -514,7 +505,7 @@ Qed.
 
 Lemma step_sim w o :
   world_inv w ->
-  abs_world (fst (step_op w o)) = a_step AsImplemented (abs_world w) o
+  abs_world (fst (step_op w o)) = a_step (abs_world w) o
   /\ world_inv (fst (step_op w o)).
 Proof.
   intros Hw. pose proof (world_inv_cur w Hw) as Hc.
@@ -574,7 +565,7 @@ Proof. unfold exec_ops. apply fold_left_app. Qed.
 
 Lemma exec_sim ops : forall w,
   world_inv w ->
-  abs_world (exec_ops w ops) = a_exec AsImplemented (abs_world w) ops /\ world_inv (exec_ops w ops).
+  abs_world (exec_ops w ops) = a_exec (abs_world w) ops /\ world_inv (exec_ops w ops).
 Proof.
   induction ops as [|o ops IH]; intros w Hw; [split; [reflexivity|exact Hw]|].
   rewrite exec_ops_cons. destruct (step_sim w o Hw) as [E Hw'].
@@ -587,8 +578,8 @@ Proof. apply exec_sim, world_inv_init. Qed.
 
 (* the abstraction of the concrete world after ANY sequence of operations is
    the abstract world after the same sequence *)
-Theorem refines_as_implemented : forall ops,
-  abs_world (exec_ops world_init ops) = a_exec AsImplemented aworld_init ops.
+Theorem refines : forall ops,
+  abs_world (exec_ops world_init ops) = a_exec aworld_init ops.
 Proof. intros ops. apply (exec_sim ops world_init world_inv_init). Qed.
 
 (* observations on a world satisfying the invariant *)
@@ -598,8 +589,8 @@ Lemma observations_of_abs w n s p :
   snd (step_op w (OHas n)) = Some (ObBool (a_has a n))
   /\ snd (step_op w OKeys) = Some (ObKeys (a_keys a))
   /\ get_or_load_template (cur w) (w_files w) n = a_load a (w_files w) n
-  /\ snd (step_op w (ORegs n s)) = Some (ObUnit (snd (a_register_template_string AsImplemented a n s)))
-  /\ snd (step_op w (ORegp n s)) = Some (ObUnit (snd (a_register_template_string AsImplemented a n s)))
+  /\ snd (step_op w (ORegs n s)) = Some (ObUnit (snd (a_register_template_string a n s)))
+  /\ snd (step_op w (ORegp n s)) = Some (ObUnit (snd (a_register_template_string a n s)))
   /\ snd (step_op w (ORegf n p)) = Some (ObUnit (snd (a_register_template_file a (w_files w) n p))).
 Proof.
   intros Hw a. subst a. rewrite <- abs_cur. pose proof (world_inv_cur w Hw) as Hc.
@@ -616,72 +607,26 @@ Proof.
     destruct (register_template_file (cur w) (w_files w) n p). cbn [snd] in *. rewrite H2. reflexivity.
 Qed.
 
-Theorem observations_as_implemented : forall ops n s p,
+Theorem observations_agree : forall ops n s p,
   let w := exec_ops world_init ops in
-  let aw := a_exec AsImplemented aworld_init ops in
+  let aw := a_exec aworld_init ops in
   snd (step_op w (OHas n)) = Some (ObBool (a_has (acur aw) n))
   /\ snd (step_op w OKeys) = Some (ObKeys (a_keys (acur aw)))
   /\ get_or_load_template (cur w) (w_files w) n = a_load (acur aw) (aw_files aw) n
   /\ snd (step_op w (ORegs n s))
-     = Some (ObUnit (snd (a_register_template_string AsImplemented (acur aw) n s)))
+     = Some (ObUnit (snd (a_register_template_string (acur aw) n s)))
   /\ snd (step_op w (ORegp n s))
-     = Some (ObUnit (snd (a_register_template_string AsImplemented (acur aw) n s)))
+     = Some (ObUnit (snd (a_register_template_string (acur aw) n s)))
   /\ snd (step_op w (ORegf n p))
      = Some (ObUnit (snd (a_register_template_file (acur aw) (aw_files aw) n p))).
 Proof.
-  intros ops n s p w aw. subst w aw. rewrite <- refines_as_implemented.
+  intros ops n s p w aw. subst w aw. rewrite <- refines.
   apply observations_of_abs, reachable_inv.
 Qed.
 
-(* ---- the two variants of the specification agree off the F6 class ---- *)
-Lemma a_put_variants a n t :
-  a_tracked a n = false -> a_put AsImplemented a n t = a_put AsStated a n t.
-Proof.
-  unfold a_tracked, a_put. destruct (a_file_of a n); [discriminate|reflexivity].
-Qed.
-
-Lemma a_step_variants w o :
-  f6_hit (acur w) o = false -> a_step AsImplemented w o = a_step AsStated w o.
-Proof.
-  destruct o; cbn [f6_hit a_step]; intros H; try reflexivity.
-  - unfold a_register_template_string.
-    destruct (compile2 src (a_opts (acur w) (Some name))); cbn [is_cok fst] in *; try reflexivity.
-    rewrite andb_true_r in H. rewrite a_put_variants by exact H. reflexivity.
-  - unfold a_register_template_string.
-    destruct (compile2 src (a_opts (acur w) (Some name))); cbn [is_cok fst] in *; try reflexivity.
-    rewrite andb_true_r in H. rewrite a_put_variants by exact H. reflexivity.
-  - destruct (compile2 src _); cbn [is_cok] in *; try reflexivity.
-    rewrite andb_true_r in H. rewrite a_put_variants by exact H. reflexivity.
-Qed.
-
-Theorem specs_agree_f6_free : forall ops w,
-  f6_free w ops = true -> a_exec AsImplemented w ops = a_exec AsStated w ops.
-Proof.
-  induction ops as [|o ops IH]; intros w H; [reflexivity|].
-  cbn [f6_free] in H. apply andb_true_iff in H as [H1 H2]. apply negb_true_iff in H1.
-  unfold a_exec. cbn [fold_left]. rewrite (a_step_variants w o H1). apply IH, H2.
-Qed.
-
-(* the refinement to the specification as the property text states it, for
-   every history outside the F6 class *)
-Theorem refines_as_stated : forall ops,
-  f6_free aworld_init ops = true ->
-  abs_world (exec_ops world_init ops) = a_exec AsStated aworld_init ops.
-Proof.
-  intros ops H. rewrite refines_as_implemented. apply specs_agree_f6_free, H.
-Qed.
-
-Theorem observations_as_stated : forall ops n,
-  f6_free aworld_init ops = true ->
-  let w := exec_ops world_init ops in
-  let aw := a_exec AsStated aworld_init ops in
-  snd (step_op w (OHas n)) = Some (ObBool (a_has (acur aw) n))
-  /\ snd (step_op w OKeys) = Some (ObKeys (a_keys (acur aw)))
-  /\ get_or_load_template (cur w) (w_files w) n = a_load (acur aw) (aw_files aw) n.
-Proof.
-  intros ops n H w aw. subst w aw. rewrite <- (specs_agree_f6_free ops _ H).
-  destruct (observations_as_implemented ops n [] []) as (H1 & H2 & H3 & _). auto.
-Qed.
+(* the invariant holds of every registry the interpreter can reach *)
+Theorem reachable_reg_inv : forall ops, reg_inv (cur (exec_ops world_init ops)).
+Proof. intros ops. apply world_inv_cur, reachable_inv. Qed.
 
 (* exec_ops is the state behind run_ops *)
 Definition obs_list (x : option obs) : list obs := match x with Some o => [o] | None => [] end.
@@ -705,40 +650,79 @@ Proof.
 Qed.
 
 (* ================================================================== *)
-(* 6. C17: the refutation (F6) and the single-operation facts          *)
+(* 6. C17: the F6 witness (now fixed) and the single-operation facts   *)
 (* ================================================================== *)
+
+(* after a successful register_template_string the name is not tracked and a
+   render uses the freshly compiled template, dev mode on or off *)
+Theorem register_string_untracks : forall r fs n src t,
+  reg_inv r ->
+  compile2 src (reg_opts r (Some n)) = COk t ->
+  let r' := fst (register_template_string r n src) in
+  snd (register_template_string r n src) = COk tt
+  /\ map_get (r_sources r') n = None
+  /\ get_or_load_template r' fs n = LoadOk t.
+Proof.
+  intros r fs n src t Hi Hc r'. subst r'. unfold register_template_string. rewrite Hc. cbn [fst snd].
+  assert (Hs : map_get (r_sources (register_template r n t)) n = None).
+  { cbn [register_template reg_with r_sources]. apply map_get_remove_eq, (inv_srcs r Hi). }
+  split; [reflexivity|]. split; [exact Hs|].
+  unfold get_or_load_template, get_or_load_template_optional. rewrite Hs.
+  cbn [register_template reg_with r_templates]. rewrite map_get_insert_eq.
+  destruct (r_dev _); reflexivity.
+Qed.
+
+(* the same for a precompiled template *)
+Theorem register_template_untracks : forall r fs n t,
+  reg_inv r ->
+  map_get (r_sources (register_template r n t)) n = None
+  /\ get_or_load_template (register_template r n t) fs n = LoadOk t.
+Proof.
+  intros r fs n t Hi.
+  assert (Hs : map_get (r_sources (register_template r n t)) n = None).
+  { cbn [register_template reg_with r_sources]. apply map_get_remove_eq, (inv_srcs r Hi). }
+  split; [exact Hs|].
+  unfold get_or_load_template, get_or_load_template_optional. rewrite Hs.
+  cbn [register_template reg_with r_templates]. rewrite map_get_insert_eq.
+  destruct (r_dev _); reflexivity.
+Qed.
+
+Example register_string_untracks_nonvacuous :
+  let r := cur (exec_ops world_init [ODev true; OFw (`"f") (`"A"); ORegf (`"n") (`"f")]) in
+  reg_inv r /\ r_dev r = true /\ map_get (r_sources r) (`"n") = Some (`"f")
+  /\ exists t, compile2 (`"B") (reg_opts r (Some (`"n"))) = COk t.
+Proof.
+  split; [apply reachable_reg_inv|]. split; [reflexivity|]. split; [vm_compute; reflexivity|].
+  eexists. vm_compute. reflexivity.
+Qed.
 
 Definition f6_ops : list op :=
   [ODev true; OFw (`"f") (`"A"); ORegf (`"n") (`"f"); ORegs (`"n") (`"B")].
 
-(* dev mode on; file f = "A"; register n from f; register n from the string
-   "B" (succeeds): the template a render of n uses is still the FILE's *)
-Theorem refuted_stale_source :
-  exists (ops : list op) (n : str),
-    let w := exec_ops world_init ops in
-    let aw := a_exec AsStated aworld_init ops in
-    get_or_load_template (cur w) (w_files w) n <> a_load (acur aw) (aw_files aw) n.
-Proof. exists f6_ops, (`"n"). vm_compute. intros H. discriminate H. Qed.
+(* the witness of finding F6 (dev mode on; file f = "A"; register n from f;
+   register n from the string "B"): with the fix, the template a render of n
+   uses is the compile of "B" *)
+Theorem restated_source_witness :
+  let w := exec_ops world_init
+             [ODev true; OFw (`"f") (`"A"); ORegf (`"n") (`"f"); ORegs (`"n") (`"B")] in
+  exists t,
+    compile2 (`"B") (reg_opts (cur w) (Some (`"n"))) = COk t
+    /\ get_or_load_template (cur w) (w_files w) (`"n") = LoadOk t
+    /\ map_get (r_sources (cur w)) (`"n") = None.
+Proof. eexists. vm_compute. repeat split; reflexivity. Qed.
 
-Theorem refuted_stale_source_render :
+Theorem restated_source_render :
   run_case [ODev true; OFw (`"f") (`"A"); ORegf (`"n") (`"f"); ORegs (`"n") (`"B");
             ORender 0 (`"n") JNull None]
-  = [ObUnit (COk tt); ObUnit (COk tt); ObRender (RoOk (`"A") [] 1)].
+  = [ObUnit (COk tt); ObUnit (COk tt); ObRender (RoOk (`"B") [] 1)].
 Proof. vm_compute. reflexivity. Qed.
 
-Example f6_ops_not_free : f6_free aworld_init f6_ops = false.
-Proof. vm_compute. reflexivity. Qed.
-
-(* the side condition of refines_as_stated is satisfiable by a history that
-   uses dev mode, file tracking, re-registration after unregistering, a clone
-   and a failed registration *)
+(* a history that uses dev mode, file tracking, re-registration after
+   unregistering, a clone and a failed registration *)
 Definition ok_ops : list op :=
   [ODev true; OFw (`"f") (`"A"); ORegf (`"n") (`"f"); ORegs (`"m") (`"B");
    OFw (`"f") (`"C"); OUnreg (`"n"); ORegs (`"n") (`"{{x}}"); ORegs (`"n") (`"{{#if}}");
    ORegf (`"m") (`"f"); OClone; OSel true; ODev false; ORegs (`"m") (`"D"); OPi true].
-
-Example ok_ops_f6_free : f6_free aworld_init ok_ops = true.
-Proof. vm_compute. reflexivity. Qed.
 
 Example ok_ops_observed :
   run_case (ok_ops ++ [OKeys; ORender 0 (`"m") JNull None; OSel false; ORender 0 (`"m") JNull None])
@@ -819,12 +803,12 @@ Theorem unregister_not_found : forall ops n,
   /\ snd (step_op w (OHas n)) = Some (ObBool false).
 Proof.
   intros ops n w. subst w.
-  destruct (observations_as_implemented (ops ++ [OUnreg n]) n [] []) as (H1 & _ & H3 & _).
+  destruct (observations_agree (ops ++ [OUnreg n]) n [] []) as (H1 & _ & H3 & _).
   rewrite H1, H3. clear H1 H3.
   unfold a_exec. rewrite fold_left_app. cbn [fold_left].
-  set (aw := fold_left (a_step AsImplemented) ops aworld_init).
+  set (aw := fold_left a_step ops aworld_init).
   assert (Hs : skeys (a_ents (acur aw))).
-  { subst aw. fold (a_exec AsImplemented aworld_init ops). rewrite <- refines_as_implemented, <- abs_cur.
+  { subst aw. fold (a_exec aworld_init ops). rewrite <- refines, <- abs_cur.
     rewrite abs_ents. apply skeys_vmap. apply (inv_tpls _ (world_inv_cur _ (reachable_inv ops))). }
   assert (Hc : forall a, acur (aset_cur aw a) = a)
     by (intros a; unfold acur, aset_cur; destruct (aw_sel aw); reflexivity).
@@ -866,7 +850,21 @@ Proof.
   intros r fs n src t b Hs Hc. unfold register_template_string, reg_opts. rewrite Hc. cbn [fst snd].
   split; [reflexivity|]. unfold get_or_load_template, get_or_load_template_optional.
   cbn [set_prevent_indent reg_set_flags register_template reg_with r_templates r_sources r_dev].
-  rewrite Hs, map_get_insert_eq. destruct (r_dev r); reflexivity.
+  rewrite (map_remove_absent _ _ Hs), Hs, map_get_insert_eq. destruct (r_dev r); reflexivity.
+Qed.
+
+(* ... and for every reachable registry, tracked or not *)
+Theorem prevent_indent_at_registration_inv : forall r fs n src t b,
+  reg_inv r ->
+  compile2 src {| o_prevent_indent := r_prevent_indent r; o_is_partial := false; o_name := Some n |} = COk t ->
+  snd (register_template_string r n src) = COk tt
+  /\ get_or_load_template (set_prevent_indent (fst (register_template_string r n src)) b) fs n = LoadOk t.
+Proof.
+  intros r fs n src t b Hi Hc. unfold register_template_string, reg_opts. rewrite Hc. cbn [fst snd].
+  split; [reflexivity|]. unfold get_or_load_template, get_or_load_template_optional.
+  cbn [set_prevent_indent reg_set_flags register_template reg_with r_templates r_sources r_dev].
+  rewrite map_get_remove_eq by apply (inv_srcs r Hi). rewrite map_get_insert_eq.
+  destruct (r_dev r); reflexivity.
 Qed.
 
 Example prevent_indent_at_registration_nonvacuous :
